@@ -179,7 +179,7 @@ class Ctx:
         if workers is None:
             workers = "auto"
         cmd = ["timeout", str(int(timeout)), "java"]
-        cmd += ["-XX:+UseParallelGC", "-Xss256m"]
+        cmd += ["-XX:+UseParallelGC", "-Xss256m", "-Djava.io.tmpdir=" + self.sub("jtmp")]
         if heap:
             cmd += ["-Xmx" + heap]
         if dfs:
